@@ -76,6 +76,7 @@ func (k Keeper) AddAllowedBidders(ctx context.Context, auctionId uint64, allowed
 		if err != nil {
 			return err
 		}
+		ab.Bidder = bidder.String() // canonical spelling: the matching looks bidders up by this string
 		if err := k.AllowedBidder.Set(ctx, collections.Join(auctionId, bidder), ab); err != nil {
 			return err
 		}
